@@ -358,6 +358,7 @@ def t_mutations(depth, maxlen):
 	evs = events(maxlen)
 	init = [(), ('a',), ('a', 'b'), ('c', 'a')]
 	seen = {s: 0 for s in init}
+	path = {s: (s, ()) for s in init}         # state -> (initial state, events leading to it): replayed on ONE object, see below
 	frontier = list(init)
 	d = 0
 	while frontier and d < depth:
@@ -417,9 +418,39 @@ def t_mutations(depth, maxlen):
 					sh.nontrivial += 1
 				if len(exp_state) <= maxlen and exp_state not in seen:
 					seen[exp_state] = d + 1
+					path[exp_state] = (path[state][0], path[state][1] + (ev,))
 					nxt.append(exp_state)
 		frontier = nxt
 		d += 1
+	# One LONG-LIVED object per transition: the state is reached by replaying its history on a single collection, with observations
+	# (==, sizes(), len, iteration, slicing) after every step - anything the object remembers from earlier observations (a cache that a
+	# mutation forgets to invalidate) makes it disagree with a freshly built collection of the same content.
+	def observe(obj, labels):
+		fresh = SignatureList([arrs[x] for x in labels], kspec(), dtype=np.dtype('u2'))
+		ok = (obj == fresh) and not (obj != fresh) and (fresh == obj)
+		ok = ok and list(obj.sizes()) == [len(arrs[x]) for x in labels] and len(obj) == len(labels)
+		ok = ok and [ident.get(id(x)) for x in obj] == list(labels) and [ident.get(id(x)) for x in obj[:]] == list(labels)
+		ok = ok and all(obj.sizeof(i) == len(arrs[x]) for i, x in enumerate(labels))
+		return bool(ok)
+	for state in list(seen):
+		init_state, hist = path[state]
+		for ev in evs:
+			model = list(init_state)
+			obj = SignatureList([arrs[x] for x in init_state], kspec(), dtype=np.dtype('u2'))
+			good = observe(obj, model)
+			try:
+				for h in hist + (ev,):
+					model = apply_event(model, h, None)
+					obj = apply_event(obj, h, arrs)
+					good = good and observe(obj, model)
+			except Exception:
+				continue          # raising events are judged in the first pass
+			sh.evals += 1
+			if not good:
+				sh.violation('long-lived-object-disagrees-with-fresh-one', dict(state=list(init_state), event=[list(h) for h in hist + (ev,)]), list(model), [ident.get(id(x)) for x in obj])
+			else:
+				sh.count('long_lived_object_histories')
+
 	# the other direction: mutating the caller's list afterwards must not change the collection
 	for state in list(seen):
 		for op in ('append', 'pop', 'reverse', 'clear', 'setitem'):
@@ -508,6 +539,7 @@ def finalize(agg, tier):
 	agg.require('mutations_that_raise', 10)
 	agg.require('equal_across_container_kinds', 10)
 	agg.require('aliasing_checks', 50)
+	agg.require('long_lived_object_histories', 1000)
 	ex = [e for e in agg.extra if 'bfs_depth' in e]
 	agg.coverage_extra['bfs_depth'] = ex[0]['bfs_depth']
 	agg.coverage_extra['bfs_frontier_left_at_depth_bound'] = ex[0]['frontier_left']
@@ -518,6 +550,9 @@ def replay(case, kind=None):
 	if 'index' in case:
 		with Coll(case['kind'], case['n']) as c:
 			check_index(sh, c, undescribe(case['index']), case['what'])
+	elif 'state' in case and kind == 'long-lived-object-disagrees-with-fresh-one':
+		vs = t_mutations(3, 4).violations
+		return [v for v in vs if v['kind'] == kind][:1]
 	elif 'state' in case and kind in ('mutation-leaked-into-source-list', 'source-list-mutation-leaked-into-collection'):
 		vs = t_mutations(3, 4).violations
 		return [v for v in vs if v['kind'] == kind][:1]
